@@ -12,11 +12,15 @@
 package main
 
 import (
+	"bufio"
 	"encoding/json"
 	"fmt"
 	"os"
 	"os/exec"
 	"path/filepath"
+	"runtime"
+	"runtime/debug"
+	"runtime/pprof"
 	"sort"
 	"strings"
 	"sync"
@@ -160,6 +164,26 @@ func runScenario(ctx *hx.Ctx, w *crashsim.World, scn *crashsim.Scenario, source 
 			col.add("query-writes", fmt.Sprintf("before write %d: %d store write(s) were issued (content changed: %v) while only read-only operations ran", write, w1-w0, d0 != d1), write)
 		}
 	}
+	// ---- and a reader in the window between repo.AddBlock and bft.CommitBlock (no store write falls into it): the new
+	// block is already observed as best, its quality record does not exist yet
+	n.BeforeCommit = func(h *block.Header) {
+		if inHook {
+			return
+		}
+		inHook = true
+		defer func() { inHook = false }()
+		where := fmt.Sprintf("between AddBlock and CommitBlock of block #%d", h.Number())
+		d0, w0 := n.Eng.Digest(), n.Eng.Len()
+		observe(n, &prevFin, col, where, w0-n.Base)
+		for _, rev := range []string{"justified", "best", "finalized"} {
+			if err := api.Queries(rev, accs[rnd.Intn(len(accs))].Address, contract); err != nil {
+				col.add("query-fails", where+": "+err.Error(), w0-n.Base)
+			}
+		}
+		if d1, w1 := n.Eng.Digest(), n.Eng.Len(); d0 != d1 || w0 != w1 {
+			col.add("query-writes", fmt.Sprintf("%s: %d store write(s) were issued (content changed: %v) while only read-only operations ran", where, w1-w0, d0 != d1), w0-n.Base)
+		}
+	}
 	// ---- the importer
 	var lines []string
 	gl, _, _, err := n.Describe(n.Genesis, n.Eng.Log(0, n.Base), true)
@@ -203,6 +227,7 @@ func runScenario(ctx *hx.Ctx, w *crashsim.World, scn *crashsim.Scenario, source 
 		lines = append(lines, "I "+line)
 	}
 	n.Eng.BeforeWrite = nil
+	n.BeforeCommit = nil
 	close(stop)
 	wg.Wait()
 	fb, ff := n.Repo.BestBlockSummary().Header.ID(), n.BFT.Finalized()
@@ -320,15 +345,41 @@ func reexecWithRaceLog() {
 	os.Exit(0)
 }
 
-func raceReports(logPath string) []string {
+// eachRaceReport streams the race detector's log files and calls f once per report (the logs of a thorough run hold
+// tens of thousands of reports of the two known classes: reading them whole cost tens of GB).
+func eachRaceReport(logPath string, f func(report string)) {
 	files, _ := filepath.Glob(logPath + ".*")
-	var out []string
-	for _, f := range files {
-		if b, err := os.ReadFile(f); err == nil && strings.Contains(string(b), "DATA RACE") {
-			out = append(out, string(b))
+	sort.Strings(files)
+	for _, name := range files {
+		fh, err := os.Open(name)
+		if err != nil {
+			continue
 		}
+		sc := bufio.NewScanner(fh)
+		sc.Buffer(make([]byte, 1<<20), 1<<24)
+		var cur strings.Builder
+		in := false
+		flush := func() {
+			if in && cur.Len() > 0 {
+				f(cur.String())
+			}
+			cur.Reset()
+		}
+		for sc.Scan() {
+			line := sc.Text()
+			if strings.Contains(line, "WARNING: DATA RACE") {
+				flush()
+				in = true
+				continue
+			}
+			if in && cur.Len() < 64<<10 {
+				cur.WriteString(line)
+				cur.WriteByte('\n')
+			}
+		}
+		flush()
+		fh.Close()
 	}
-	return out
 }
 
 // raceSites lists the functions of the two conflicting accesses of a report (coverage only).
@@ -428,7 +479,9 @@ func main() {
 			}
 		}
 		rnd := hx.NewRand(ctx.Seed)
-		chains := ctx.Scale(4, 40)
+		// 28 chains in the thorough tier: the race detector's own memory grows by about 250 MB per chain and is never
+		// returned (Go heap stays below 0.5 GB); 40 chains peaked above 9 GB resident
+		chains := ctx.Scale(4, 28)
 		for i := 0; i < chains; i++ {
 			// epoch lengths 2..8, 3..7 validators; the first four chains fix the corners
 			cfg := crashsim.Config{L: uint32(rnd.Range(2, 8)), N: rnd.Range(3, 7)}
@@ -446,24 +499,35 @@ func main() {
 			scn := crashsim.Gen(rnd.Fork(uint64(i)), cfg, mainLen)
 			ctx.Cov.Count(fmt.Sprintf("config:L=%d,N=%d", cfg.L, cfg.N))
 			runScenario(ctx, crashsim.TheWorld(cfg), scn, fmt.Sprintf("seed %d chain %d", ctx.Seed, i), readers)
+			debug.FreeOSMemory()
+			if os.Getenv("VERIF_MEMSTAT") != "" {
+				var ms runtime.MemStats
+				runtime.ReadMemStats(&ms)
+				statm, _ := os.ReadFile("/proc/self/statm")
+				fmt.Fprintf(os.Stderr, "memstat chain %d: heap-inuse %d MB, heap-sys %d MB, goroutines %d, statm %s", i, ms.HeapInuse>>20, ms.HeapSys>>20, runtime.NumGoroutine(), statm)
+			}
 		}
 	}
+	if os.Getenv("VERIF_MEMSTAT") != "" {
+		pprof.Lookup("goroutine").WriteTo(os.Stderr, 1)
+	}
 	if lp := os.Getenv("VERIF_C20_RACELOG"); lp != "" {
-		byClass := map[string][]string{}
-		for _, rep := range raceReports(lp) {
-			for _, one := range strings.Split(rep, "WARNING: DATA RACE")[1:] {
-				c := raceClass(one)
-				byClass[c] = append(byClass[c], one)
-				ctx.Cov.Count("race-sites:" + raceSites(one))
+		count := map[string]int{}
+		first := map[string]string{}
+		eachRaceReport(lp, func(one string) {
+			c := raceClass(one)
+			if count[c] == 0 {
+				if len(one) > 5000 {
+					one = one[:5000]
+				}
+				first[c] = one
 			}
-		}
-		for _, c := range hx.SortedKeys(byClass) {
-			first := byClass[c][0]
-			if len(first) > 5000 {
-				first = first[:5000]
-			}
-			ctx.Cov.Add("race-reports:"+c, len(byClass[c]))
-			ctx.Violation(c, fmt.Sprintf("the Go race detector reported %d data race(s) of this class while readers ran against the importer; first report:\n%s", len(byClass[c]), first),
+			count[c]++
+			ctx.Cov.Count("race-sites:" + raceSites(one))
+		})
+		for _, c := range hx.SortedKeys(count) {
+			ctx.Cov.Add("race-reports:"+c, count[c])
+			ctx.Violation(c, fmt.Sprintf("the Go race detector reported %d data race(s) of this class while readers ran against the importer; first report:\n%s", count[c], first[c]),
 				map[string]any{"seed": ctx.Seed, "tier": ctx.Tier, "how": "run harness/bin/*/c20 (built with -race) with this seed"}, true)
 		}
 	}
